@@ -11,6 +11,16 @@ import (
 	"verif.local/harness/lib"
 )
 
+// gate limits the number of TLC processes a check runs at the same time.
+var gate = make(chan struct{}, 4)
+
+// TLC is c.TLC behind the gate (at most 4 TLC processes of this check at once).
+func TLC(c *lib.Ctx, name string, run lib.TLCRun) (*lib.TLCResult, error) {
+	gate <- struct{}{}
+	defer func() { <-gate }()
+	return c.TLC(name, run)
+}
+
 // Expand lets TLC expand the derivation state machine of ElvSyntax.tla and returns the distinct
 // completed token sequences, sorted. sim = 0: exhaustive over all leftmost derivations of at
 // most s expansions with nesting fuel d; sim > 0: that many seeded random walks.
@@ -23,7 +33,7 @@ func Expand(c *lib.Ctx, name string, d, s, sim int, timeout time.Duration) ([][]
 		run.Simulate = fmt.Sprintf("num=%d", sim)
 		run.Depth = s + 2
 	}
-	r, err := c.TLC(name, run)
+	r, err := TLC(c, name, run)
 	if err != nil {
 		return nil, err
 	}
